@@ -4,7 +4,7 @@ package libinjection
 
 // T layer for SQLi (C03, C10, C14, also C08/C12 on long inputs): attack templates with symbolic holes.
 // Template syntax: {word} = keyword with the case of every letter free; ~ = separator (shape chosen by the job);
-// # = any decimal digit; ? = any lower-case letter; everything else literal.
+// _ = SQL whitespace byte other than newline; # = any decimal digit; ? = any lower-case letter; everything else literal.
 
 // vSep: separator shapes. 0: one SQL whitespace byte (any of the 8, incl. NUL and 0xA0), 1: two of them,
 // 2: "/**/", 3: "/*" letter "*/", 4: one of the 6 ASCII whitespace bytes (for places where NUL / 0xA0 are not separators)
@@ -38,6 +38,9 @@ func vExpand(t string, sep int) string {
 			i = j
 		case '~':
 			out += vSep(sep)
+		case '_':
+			// whitespace inside a trailing line comment: any SQL whitespace byte except the newline that would end the comment
+			out += vB(vByteIn(" \t\v\f\r\xa0\x00"))
 		case '#':
 			out += vB(vDigit())
 		case '?':
@@ -53,7 +56,7 @@ var vSqlCtx = [...]string{"#", "#'", "#\"", "#)", "#')", "#\")", "?'", "#'))", "
 
 const vNumSqlCtx = 10
 
-var vSqlTails = [...]string{"", "~--", "~--~?", "~#", "~/*", ";", "~--~", ";--", "~-- -"}
+var vSqlTails = [...]string{"", "~--", "~--_?", "~#", "~/*", ";", "~--_", ";--", "~-- -"}
 
 const vNumSqlTails = 9
 
@@ -162,7 +165,7 @@ func HSqlCaseT(ctx int, atk int, tail int) {
 	for i := 0; i < len(t); i++ {
 		c := t[i]
 		switch c {
-		case '~':
+		case '~', '_':
 			base += " "
 		case '#':
 			base += "1"
